@@ -175,6 +175,22 @@ func (w *World) RegisterService(k *Key, chainID, svc string, ordered bool, black
 	return w.Approve(ProposalID(rc))
 }
 
+// PermitOnlyUpdate builds an UpdateService call that keeps the service's current name and details and
+// only replaces its black list: the contract applies such an update at once, without a proposal.
+// svc is "<chain>:<service>". ok is false when the service cannot be read.
+func (w *World) PermitOnlyUpdate(k *Key, svc string, blacklist string) (tx *pb.BxhTransaction, ok bool) {
+	rc := w.R.Query(AddrService, "GetServiceInfo", pb.String(svc))
+	var s struct {
+		Name    string `json:"name"`
+		Intro   string `json:"intro"`
+		Details string `json:"details"`
+	}
+	if rc.Status != pb.Receipt_SUCCESS || json.Unmarshal(rc.Ret, &s) != nil || s.Name == "" {
+		return nil, false
+	}
+	return w.BVM(k, AddrService, "UpdateService", pb.String(svc), pb.String(s.Name), pb.String(s.Intro), pb.String(blacklist), pb.String(s.Details), pb.String("reason")), true
+}
+
 // FullID is the full service id on this hub.
 func FullID(chain, svc string) string { return BxhID + ":" + chain + ":" + svc }
 
